@@ -372,6 +372,14 @@ fn fails_same(sc: &BlockScenario, oracle: &str) -> Option<Fail> {
 }
 
 pub fn minimise(sc: &BlockScenario, oracle: &str) -> BlockScenario {
+    // bounded effort: a sequence for a large block costs about a second per execution
+    let deadline = std::time::Instant::now() + std::time::Duration::from_secs(90);
+    let fails_same = |c: &BlockScenario, name: &str| -> Option<Fail> {
+        if std::time::Instant::now() > deadline {
+            return None;
+        }
+        fails_same(c, name)
+    };
     let mut best = sc.clone();
     if let Some(f) = fails_same(&best, oracle) {
         let mut t = best.clone();
